@@ -88,7 +88,7 @@ def describe_obs(t, matched):
 
 
 def slim(t):
-    return {"steps": t["tsteps"]}
+    return {"steps": t["tsteps"], "alias": bool(t.get("alias"))}
 
 
 def run(tier, seed, replay=None):
@@ -144,11 +144,15 @@ def run(tier, seed, replay=None):
         evs = [e for e in t["events"] if e["ev"] != "recovery.iter"]
         if s.get("stage", "proc") == "proc" and not s.get("err_noise") and any(e["ev"] == "copier.tell" for e in evs) and t["nevents"] < 3900:
             steps = [{"ev": e["ev"], "fd": int(e.get("fd", 0)), "n": int(e.get("n", 0)), "pos": int(e.get("pos", 0)), "flag": ""} for e in evs]
-            traces.append({"scn": s, "cmd": t["cmd"], "tsteps": steps, "steps": steps})
+            traces.append({"scn": s, "cmd": t["cmd"], "tsteps": steps, "steps": steps, "alias": False})
+        elif s.get("stage") == "alias" and s.get("threading", "default") in ("default", "thread") and any(e["ev"] == "proxy.before_close" for e in evs) and t["nevents"] < 3900:
+            # a callable alias as the only stage: pump / proxy / reader events
+            steps = [{"ev": e["ev"], "fd": int(e.get("fd", 0)), "n": int(e.get("n", 0)), "pos": int(e.get("pos", 0)), "flag": ""} for e in evs if not e["ev"].startswith("copier.")]
+            traces.append({"scn": s, "cmd": t["cmd"], "tsteps": steps, "steps": steps, "alias": True})
     # the order of the three reads of the real "fully read?" (every combination of flag values)
     for t in order_runs:
         if t.get("order"):
-            traces.append({"scn": t["scn"], "cmd": "QueueReader.is_fully_read() on an instrumented reader", "tsteps": [dict(ev=e["ev"], flag=e["flag"], fd=0, n=0, pos=0) for e in t["steps"]], "steps": t["steps"]})
+            traces.append({"alias": False, "scn": t["scn"], "cmd": "QueueReader.is_fully_read() on an instrumented reader", "tsteps": [dict(ev=e["ev"], flag=e["flag"], fd=0, n=0, pos=0) for e in t["steps"]], "steps": t["steps"]})
     tcfg = "SPECIFICATION TSpec\nCONSTANTS\n  Deviations = {}\n"
     stats = core.validate_with_findings(res, "CaptureTrace", traces, tcfg, describe=describe, timeout=3000, project=slim) if traces else {"validated": 0}
     kinds = {}
